@@ -1,3 +1,4 @@
 SPECIFICATION Spec
 INVARIANT C02Inv
+INVARIANT AbsurdInv
 CHECK_DEADLOCK FALSE
